@@ -61,6 +61,10 @@ CLAIMED = {
    technique="TLA+ lexer over character classes (Lexer.tla) with progress/tiling/totality checked by TLC on all texts up to a length; concretised replay on Lex::next; print/read values enumerated by TLC; seeded UTF-8 spans validated by TLC (Trace_Lexer)",
    text="TLC enumerates every text over 22 character classes (whitespace kinds, digits, hex letters, radix markers, signs, separators, the three quote characters, backslash, bar, parentheses, letters, a multi-byte class) up to a length and checks on the design that every token consumes at least one character, tokens tile the text and lexing stops within len+1 tokens. Each class text is concretised with several real characters per class (1-4 byte UTF-8) and lexed by the real lexer: kinds, spans, decoded strings, bit-string bits and integer values must be the predicted ones. TLC also enumerates values (all bit-strings up to a length, integers, vectors/maps of those) with their literal text; the real printer must produce it and reading it back must give an equal value. Seeded arbitrary UTF-8 texts are lexed to the end and the recorded spans validated by a trace specification (termination, progress, tiling).",
    note="Real literals are compared with str::parse::<f64> of the same text (assumption); integer values in the class model are small."),
+ "C17": dict(cat="model_checking", design="5/C17",
+   technique="TLA+: ground-truth failing token from the structural reference (Src.tla) vs the token the design's debug map blames (Xeh.tla), checked by TLC on every failing generated program; location function enumerated by TLC; replay with varied layouts on the real crate",
+   text="For every generated failing program TLC takes the position at which the structural reference stops as the ground truth and checks on the design that the debug map (kept index-aligned with the bytecode through every emit and back-patch) blames that token; each program is then laid out with varied line ends, tabs, multi-byte text and comments, evaluated after 0-2 earlier sources, and last_err_location() must name the right source, quote the failing token's exact byte range, its true line and column and its line. The line/column/quoted-line function is specified separately, enumerated by TLC over all prefixes of LF/CR/tab/space/ASCII/2-3-4-byte characters, and replayed on lex::token_location in isolation (the harness's own reference function is validated against the same enumeration).",
+   note="Either token of a two-token construct may be blamed; end-of-input, meta-block, injected and included-text errors are not enumerated yet."),
 }
 
 PENDING_REASON = "check not built yet in this build session (planned, DESIGN.md section 12); no claim is made for it"
